@@ -52,14 +52,14 @@ Proof. exact honey_exactly_N. Qed.
    computes is the model's walk (with the fall-back to the last entry), its
    base_prob is 1.0 and its prob is _find_prob of the walk *)
 Theorem C16_source_random_walk_is_model :
-  forall (T : Type) (zero one : T) (add mul : T -> T -> T) (leb : T -> T -> bool) (ofnat : nat -> T)
+  forall (T : Type) (zero one : T) (add mul : T -> T -> T) (leb ltb : T -> T -> bool) (ofnat : nat -> T)
          (find_prob : list (nat * nat) -> T -> T)
          (undef_draw : T) (undef_node : nat * nat) (undef_group : T * nat) (undef_base : T * list nat)
          (g : @hgrammar T) (u0 : T) (us : list T),
   hbases g <> [] ->
   (forall b, In b (hbases g) -> length (snd b) <= length us) ->
   exists w, random_walk zero add mul leb ofnat true g u0 us = Some w /\
-            py_random_walk zero one add mul leb ofnat find_prob undef_draw undef_node undef_group undef_base
+            py_random_walk zero one add mul leb ltb ofnat find_prob undef_draw undef_node undef_group undef_base
                            g (u0 :: us) = (w, one, find_prob w one).
 Proof. exact (@small_random_walk_eq). Qed.
 
@@ -68,14 +68,14 @@ Proof. exact (@small_random_walk_eq). Qed.
    lies in (cum_{k-1}, cum_k], an interval whose length is the k-th probability
    (C16_interval_length_Q) *)
 Theorem C16_source_walk_base_interval_Q :
-  forall one find_prob undef_draw undef_node undef_group undef_base
+  forall one (ltb : Q -> Q -> bool) find_prob undef_draw undef_node undef_group undef_base
          (g : @hgrammar Q) (u0 : Q) (us : list Q) (k : nat),
   hbases g <> [] ->
   (forall b, In b (hbases g) -> length (snd b) <= length us) ->
   (k < length (hbases g))%nat -> Forall (fun w => 0 <= w)%Q (map fst (hbases g)) ->
   (u0 <= nth k (Qcums (map fst (hbases g))) 0)%Q ->
   (k = 0%nat \/ (nth (k - 1) (Qcums (map fst (hbases g))) 0 < u0)%Q) ->
-  map fst (fst (fst (py_random_walk 0%Q one Qplus Qmult Qle_bool (fun n => inject_Z (Z.of_nat n)) find_prob
+  map fst (fst (fst (py_random_walk 0%Q one Qplus Qmult Qle_bool ltb (fun n => inject_Z (Z.of_nat n)) find_prob
                        undef_draw undef_node undef_group undef_base g (u0 :: us))))
   = snd (nth k (hbases g) (0%Q, [])).
 Proof. exact small_walk_base_interval_Q. Qed.
@@ -83,11 +83,11 @@ Proof. exact small_walk_base_interval_Q. Qed.
 (* ... and position i holds group ix of its variable exactly when the position's
    draw lies in the interval of that group's weight prob * |values| *)
 Theorem C16_source_walk_group_interval_Q :
-  forall one find_prob undef_draw undef_node undef_group undef_base
+  forall one (ltb : Q -> Q -> bool) find_prob undef_draw undef_node undef_group undef_base
          (g : @hgrammar Q) (u0 : Q) (us : list Q) (i v ix k : nat) (u : Q),
   hbases g <> [] ->
   (forall b, In b (hbases g) -> length (snd b) <= length us) ->
-  nth_error (fst (fst (py_random_walk 0%Q one Qplus Qmult Qle_bool (fun n => inject_Z (Z.of_nat n)) find_prob
+  nth_error (fst (fst (py_random_walk 0%Q one Qplus Qmult Qle_bool ltb (fun n => inject_Z (Z.of_nat n)) find_prob
                          undef_draw undef_node undef_group undef_base g (u0 :: us)))) i = Some (v, ix) ->
   nth_error us i = Some u ->
   let ws := weights Qmult (fun n => inject_Z (Z.of_nat n)) (nth v (htable g) []) in
@@ -102,7 +102,7 @@ Example C16_source_walk_example :
   let g := {| hbases := [((1#4)%Q, [0]); ((3#4)%Q, [1; 0])];
               htable := [[((1#4)%Q, 2); ((1#2)%Q, 1)]; [((1#2)%Q, 1); ((1#6)%Q, 3)]] |} in
   hbases g <> [] /\ (forall b, In b (hbases g) -> length (snd b) <= 2) /\
-  fst (fst (py_random_walk 0%Q 1%Q Qplus Qmult Qle_bool (fun n => inject_Z (Z.of_nat n)) (fun _ p => p)
+  fst (fst (py_random_walk 0%Q 1%Q Qplus Qmult Qle_bool (fun a b => negb (Qle_bool b a)) (fun n => inject_Z (Z.of_nat n)) (fun _ p => p)
               0%Q (0, 0) (0%Q, 0) (0%Q, []) g [(1#2)%Q; (3#4)%Q; (1#2)%Q])) = [(1, 1); (0, 0)].
 Proof.
   cbv zeta. split; [discriminate|]. split.
